@@ -309,7 +309,8 @@ OpenClean(r) ==
 \* a full read-back of the open, quiescent database (C01, C05)
 ReadAll(r) ==
   /\ mode = "open"
-  /\ \A t \in Threads : pend[t].st = "idle"
+  /\ \A t \in Threads : IF pend[t].st = "idle" THEN TRUE
+                                              ELSE pend[t].op \in {"compact", "backup", "sync"}   \* no logical effect (C05)
   /\ Observed(r, r.kv)
   /\ r.kv = kv
   /\ UNCHANGED absvars
